@@ -315,3 +315,162 @@ impl ChildOutputMut {
         }
     }
 }
+
+/// Verification hooks (`--cfg nextest_verif`): drive the real `FusedBufReader` over a
+/// caller-supplied reader, and the real `ChildAccumulator` / `ChildFds` over caller-supplied file
+/// descriptors, returning plain data.
+#[cfg(nextest_verif)]
+pub mod verif_imp {
+    use super::*;
+
+    /// The size of each underlying read (`CHUNK_SIZE`).
+    pub const VERIF_CHUNK_SIZE: usize = CHUNK_SIZE;
+
+    /// The real `FusedBufReader<R>` together with the buffer it accumulates into.
+    pub struct VerifFusedReader<R> {
+        reader: FusedBufReader<R>,
+        acc: BytesMut,
+    }
+
+    impl<R: AsyncRead + Unpin> VerifFusedReader<R> {
+        /// `FusedBufReader::new`.
+        pub fn new(reader: R) -> Self {
+            Self {
+                reader: FusedBufReader::new(reader),
+                acc: BytesMut::with_capacity(CHUNK_SIZE),
+            }
+        }
+
+        /// `FusedBufReader::fill_buf` into the owned buffer.
+        pub async fn fill_buf(&mut self) -> Result<(), io::Error> {
+            self.reader.fill_buf(&mut self.acc).await
+        }
+
+        /// `FusedBufReader::is_done`.
+        pub fn is_done(&self) -> bool {
+            self.reader.is_done()
+        }
+
+        /// The bytes accumulated so far.
+        pub fn acc(&self) -> &[u8] {
+            &self.acc
+        }
+    }
+
+    /// What a `ChildAccumulator` holds, as plain data. Streams that are not captured are `None`.
+    #[derive(Clone, Debug, Default)]
+    pub struct VerifAccState {
+        /// Accumulated standard output (split mode).
+        pub stdout: Option<Vec<u8>>,
+        /// Accumulated standard error (split mode).
+        pub stderr: Option<Vec<u8>>,
+        /// Accumulated combined stream (combined mode).
+        pub combined: Option<Vec<u8>>,
+        /// `is_done` of the standard output reader (split mode).
+        pub stdout_done: Option<bool>,
+        /// `is_done` of the standard error reader (split mode).
+        pub stderr_done: Option<bool>,
+        /// `is_done` of the combined reader (combined mode).
+        pub combined_done: Option<bool>,
+        /// `ChildFds::is_done`.
+        pub all_done: bool,
+        /// One entry per recorded `ChildFdError`: "stdout", "stderr", "combined" or "wait".
+        pub errors: Vec<&'static str>,
+    }
+
+    /// The real `ChildAccumulator` over caller-supplied file descriptors.
+    pub struct VerifAccumulator {
+        acc: ChildAccumulator,
+    }
+
+    impl VerifAccumulator {
+        /// `ChildFds::new_split` over the read ends of caller-supplied pipes. Must be called
+        /// inside a tokio runtime with the I/O driver enabled.
+        #[cfg(unix)]
+        pub fn new_split(
+            stdout: Option<std::os::fd::OwnedFd>,
+            stderr: Option<std::os::fd::OwnedFd>,
+        ) -> io::Result<Self> {
+            let stdout = stdout
+                .map(|fd| ChildStdout::from_std(std::process::ChildStdout::from(fd)))
+                .transpose()?;
+            let stderr = stderr
+                .map(|fd| ChildStderr::from_std(std::process::ChildStderr::from(fd)))
+                .transpose()?;
+            Ok(Self {
+                acc: ChildAccumulator::new(ChildFds::new_split(stdout, stderr)),
+            })
+        }
+
+        /// `ChildFds::new_combined` over the read end of a caller-supplied pipe, built the same
+        /// way as `spawn` does.
+        #[cfg(unix)]
+        pub fn new_combined(fd: std::os::fd::OwnedFd) -> Self {
+            Self {
+                acc: ChildAccumulator::new(ChildFds::new_combined(std::fs::File::from(fd).into())),
+            }
+        }
+
+        /// `ChildAccumulator::fill_buf`.
+        pub async fn fill_buf(&mut self) {
+            self.acc.fill_buf().await
+        }
+
+        /// `ChildFds::is_done`.
+        pub fn is_done(&self) -> bool {
+            self.acc.fds.is_done()
+        }
+
+        /// The current contents (through `ChildOutputMut::snapshot`), done flags and errors.
+        pub fn state(&self) -> VerifAccState {
+            let mut st = VerifAccState {
+                all_done: self.acc.fds.is_done(),
+                ..VerifAccState::default()
+            };
+            match &self.acc.fds {
+                ChildFds::Split { stdout, stderr } => {
+                    st.stdout_done = stdout.as_ref().map(|r| r.is_done());
+                    st.stderr_done = stderr.as_ref().map(|r| r.is_done());
+                }
+                ChildFds::Combined { combined } => {
+                    st.combined_done = Some(combined.is_done());
+                }
+            }
+            Self::fill_output(&mut st, self.acc.output.snapshot());
+            st.errors = self
+                .acc
+                .errors
+                .iter()
+                .map(|e| match e {
+                    ChildFdError::ReadStdout(_) => "stdout",
+                    ChildFdError::ReadStderr(_) => "stderr",
+                    ChildFdError::ReadCombined(_) => "combined",
+                    ChildFdError::Wait(_) => "wait",
+                })
+                .collect();
+            st
+        }
+
+        /// `ChildOutputMut::freeze`: the output as it is stored in the attempt's status.
+        pub fn freeze(self) -> VerifAccState {
+            let mut st = self.state();
+            st.stdout = None;
+            st.stderr = None;
+            st.combined = None;
+            Self::fill_output(&mut st, self.acc.output.freeze());
+            st
+        }
+
+        fn fill_output(st: &mut VerifAccState, output: ChildOutput) {
+            match output {
+                ChildOutput::Split(ChildSplitOutput { stdout, stderr }) => {
+                    st.stdout = stdout.map(|o| o.buf.to_vec());
+                    st.stderr = stderr.map(|o| o.buf.to_vec());
+                }
+                ChildOutput::Combined { output } => {
+                    st.combined = Some(output.buf.to_vec());
+                }
+            }
+        }
+    }
+}
